@@ -834,6 +834,73 @@ def oracleC19 (p : Parsed) (fs : List (String × String)) : Option String :=
       else none
   | none => none
 
+/-- Frames of a byte stream plus whether it is a whole number of frames. -/
+def framesAndRest : Nat → Bytes → List (UInt8 × Bytes) × Bool
+  | 0, _ => ([], false)
+  | _, [] => ([], true)
+  | fuel + 1, f :: a :: b :: c :: d :: rest =>
+    let n := fromBe32 a b c d
+    if rest.length < n then ([], false)
+    else let (fs, ok) := framesAndRest fuel (rest.drop n); ((f, rest.take n) :: fs, ok)
+  | _, _ => ([], false)
+
+/-- C09: a request or response stream that stops inside an envelope or message, carries illegal
+    flags or ends with an unexpected EOF never surfaces as success; the backend is only handed
+    messages the client completed. -/
+def oracleC09 (p : Parsed) (fs : List (String × String)) : Option String :=
+  match branchOf p with
+  | .transcoded o =>
+    if fieldOf fs "disp" != "svc" then none else
+    let readsAll := p.sc.script.any fun op => match op with | .readall _ => true | _ => false
+    let endS := fieldOf fs "end"
+    let clientOk := match endS.splitOn ":" with
+      | [_, c, _, _] => c == "0"
+      | _ => false
+    -- request side (enveloped clients; the handler must actually consume the request)
+    let body := p.sc.src.chunks.flatten
+    let reqFault : Option String :=
+      match o.clientEnveloper with
+      | none => none
+      | some ce =>
+        if !readsAll then none else
+        let (frames, whole) := framesAndRest (body.length + 1) body
+        if !whole then some "request stream is cut inside an envelope or message"
+        else if p.sc.src.ending == .unexpected then some "request stream ends with an unexpected EOF"
+        else if frames.any (fun f => (ce.decodeFlags f.1).isNone || (ce.decodeFlags f.1 == some (true, false)) || (ce.decodeFlags f.1 == some (true, true)))
+          then some "request envelope carries illegal flags"
+        else none
+    match reqFault with
+    | some why =>
+      -- the fault must be visible: to the client (non-OK outcome) or at least to the handler (a read
+      -- error, on which a conforming handler fails the RPC) - never a clean end plus success
+      if clientOk && fieldOf fs "bre" == "eof" then some ("handler saw a clean end and client saw success although the " ++ why) else
+      -- what the backend got as complete messages must be a prefix of what the client completed
+      (match o.serverEnveloper with
+       | some _ =>
+         let br := (fromHex (fieldOf fs "br")).getD []
+         let (got, _) := framesAndRest (br.length + 1) br
+         let (sent, _) := framesAndRest (body.length + 1) body
+         if got.length > sent.length then some "backend was handed more complete messages than the client completed" else none
+       | none => if fieldOf fs "bre" == "eof" && !body.isEmpty && (framesAndRest (body.length + 1) body).1.length == 0
+           then some "backend body ended cleanly although the client's only message was cut" else none)
+    | none =>
+      -- response side
+      let writes := p.sc.script.foldl (fun acc op => match op with | .write b => acc ++ b | _ => acc) ([] : Bytes)
+      let statusOk := p.sc.script.all fun op => match op with | .status c => c == 200 | _ => true
+      let respFault : Option String :=
+        match o.serverEnveloper with
+        | some se =>
+          let (frames, whole) := framesAndRest (writes.length + 1) writes
+          if !statusOk then none
+          else if !whole then some "response stream is cut inside an envelope or message"
+          else if frames.any (fun f => (se.decodeFlags f.1).isNone) then some "response envelope carries illegal flags"
+          else none
+        | none => none
+      match respFault with
+      | some why => if clientOk then some ("client saw success although the " ++ why) else none
+      | none => none
+  | _ => none
+
 def controlKeys : List Bytes :=
   ["Content-Type", "Content-Length", "Content-Encoding", "Accept-Encoding", "Te", "Trailer", "Grpc-Timeout", "Grpc-Encoding",
    "Grpc-Accept-Encoding", "Grpc-Status", "Grpc-Message", "Grpc-Status-Details-Bin", "Connect-Timeout-Ms",
@@ -887,6 +954,7 @@ def specE2E (prop : String) (hexJson : String) (res : List String) : String :=
       | "C13" => some (oracleC13 p res)
       | "C02" => some (oracleC02 p fs)
       | "C19" => some (oracleC19 p fs)
+      | "C09" => some (oracleC09 p fs)
       | "C01" => (parseExpect p.json).map fun ex => oracleC01 p ex fs
       | "C04" => (parseExpect p.json).map fun ex => oracleC04 p ex fs
       | "C05" => some (oracleC05 p (parseExpect p.json) fs)
